@@ -249,6 +249,10 @@ func (f *Formatter) formatNode(n *html.Node, buf *strings.Builder, depth int) {
 		if n.Data == "pre" {
 			buf.WriteString(indent)
 			buf.WriteString(f.renderOpenTag(n))
+			// A parser drops one newline right after <pre>; keep the content's own.
+			if c := n.FirstChild; c != nil && c.Type == html.TextNode && strings.HasPrefix(c.Data, "\n") {
+				buf.WriteString("\n")
+			}
 			f.renderPreContent(n, buf)
 			buf.WriteString(f.renderCloseTag(n))
 			buf.WriteString("\n")
